@@ -4,6 +4,7 @@ mod canon;
 mod guard;
 mod ops_core;
 mod ops_script;
+mod ops_text;
 
 use std::io::{BufRead, Write};
 
